@@ -216,12 +216,33 @@ pub fn record(args: &[String]) -> i32 {
         let dict = match load_with("c07y", "", &plugin) { Ok(d) => d, Err(e) => { tr.emit(json!({"ev": "plugin_load", "what": "yomigana", "err": e})); continue; } };
         let cc = &dict.grammar().character_category;
         let pieces = ["漢", "字", "𠮷", "か", "カ", "ん", "ー", "(", "（", ")", "）", "[", "]", "a", "1", "々"];
-        for _ in 0..(nrand / 4).max(30) {
+        // the characters at and next to every edge of a kanji / kana range of the character definition, once in the kanji position and
+        // once inside the brackets: which characters count is the definition's business (C17), not the plugin's
+        let mut edge_texts: Vec<String> = Vec::new();
+        for (range, cat) in cc.iter() {
+            if !cat.intersects(CategoryType::KANJI | CategoryType::HIRAGANA | CategoryType::KATAKANA) { continue; }
+            let (s0, e0) = (range.start as u32, range.end as u32);
+            for cp in [s0.wrapping_sub(1), s0, e0.wrapping_sub(1), e0] {
+                if let Some(c) = char::from_u32(cp) {
+                    if lb.contains(&c) || rb.contains(&c) { continue; }
+                    edge_texts.push(format!("{}{}か{}", c, lb[0], rb[0]));
+                    edge_texts.push(format!("漢{}{}{}a", lb[0], c, rb[0]));
+                }
+            }
+        }
+        edge_texts.sort(); edge_texts.dedup();
+        let nedge = edge_texts.len();
+        for k in 0..(nrand / 4).max(30) + nedge {
             let mut t = String::new();
-            for _ in 0..rng.below(10) { t.push_str(rng.pick_str(&pieces)); }
-            let kinds: Vec<&str> = t.chars().map(|c| {
+            if k < nedge { t = edge_texts[k].clone(); } else { for _ in 0..rng.below(10) { t.push_str(rng.pick_str(&pieces)); } }
+            let kinds: Vec<Vec<&str>> = t.chars().map(|c| {
                 let cat = cc.get_category_types(c);
-                if lb.contains(&c) { "L" } else if rb.contains(&c) { "B" } else if cat.intersects(CategoryType::KANJI) { "K" } else if cat.intersects(CategoryType::HIRAGANA | CategoryType::KATAKANA) { "R" } else { "O" }
+                let mut k = Vec::new();
+                if lb.contains(&c) { k.push("L"); }
+                if rb.contains(&c) { k.push("B"); }
+                if cat.intersects(CategoryType::KANJI) { k.push("K"); }
+                if cat.intersects(CategoryType::HIRAGANA | CategoryType::KATAKANA) { k.push("R"); }
+                k
             }).collect();
             match run_plugin(&dict, 0, &t) {
                 Ok(out) => tr.emit(json!({"ev": "yomigana", "run": run, "n": n, "kinds": kinds, "text": cps(&t), "out": cps(&out)})),
